@@ -16,9 +16,10 @@ structure WF (c : Cfg) (s : State) : Prop where
   disj : ∀ i ∈ s.S, i ∉ s.P
   useful : ∀ i ∈ s.U, i ∈ s.P
   bound : c.alg = .vogpAD → ∀ i, i ∈ s.S ∨ i ∈ s.P → i < s.depths.length
+  noU : c.alg = .vogpAD → s.U = []
 
 theorem wf_init (c : Cfg) : WF c (init c) := by
-  refine ⟨?_, by simp [init], ?_, by simp [init], ?_⟩
+  refine ⟨?_, by simp [init], ?_, by simp [init], ?_, fun _ => rfl⟩
   · unfold init
     cases c.alg <;> simp [List.nodup_range]
   · simp [init]
@@ -95,5 +96,330 @@ theorem active_trans (c : Cfg) (s : State) (e : Env) (hw : WF c s)
     exact ⟨hvo, fun i hi => hvo.keep i (hw.useful i hi), rfl, rfl, rfl, rfl⟩
   case epal =>
     exact ⟨hvo, fun i hi => hvo.keep i (hw.useful i hi), rfl, rfl, rfl, rfl⟩
+
+/-! ### VOGP_AD -/
+
+theorem mem_childIds (c : Cfg) (n k : Nat) : k ∈ childIds c n ↔ n ≤ k ∧ k < n + c.branch := by
+  unfold childIds
+  simp only [List.mem_map, List.mem_range]
+  constructor
+  · rintro ⟨j, hj, rfl⟩; omega
+  · rintro ⟨h1, h2⟩; exact ⟨k - n, by omega, by omega⟩
+
+theorem nodup_childIds (c : Cfg) (n : Nat) : (childIds c n).Nodup := by
+  unfold childIds
+  exact List.Pairwise.map _ (fun a b (h : a ≠ b) => by omega) List.nodup_range
+
+theorem choose_sample {c : Cfg} {s : State} {e : Env} {d : Nat} (h : choose c s e = .sample d) :
+    d ∈ s.S ∨ d ∈ s.P := by
+  unfold choose at h
+  split at h
+  · cases h
+  · rename_i p hp
+    have hm := List.mem_of_mem_head? (Option.mem_def.mpr hp)
+    have hc : (union s.S s.P).contains p.1 = true := (List.mem_filter.mp hm).2
+    have hu : p.1 ∈ union s.S s.P := by simpa using hc
+    split at h
+    · split at h <;> cases h
+    · cases h; exact (mem_union _ _ _).mp hu
+
+theorem choose_refineS {c : Cfg} {s : State} {e : Env} {d : Nat} (h : choose c s e = .refineS d) :
+    d ∈ s.S ∧ depthOf s d < c.maxDepth := by
+  unfold choose at h
+  split at h
+  · cases h
+  · rename_i p hp
+    split at h
+    · rename_i hcond
+      split at h
+      · rename_i hS
+        cases h
+        simp only [Bool.and_eq_true, decide_eq_true_eq] at hcond
+        exact ⟨by simpa using hS, hcond.1⟩
+      · cases h
+    · cases h
+
+theorem choose_refineP {c : Cfg} {s : State} {e : Env} {d : Nat} (h : choose c s e = .refineP d) :
+    d ∉ s.S ∧ d ∈ s.P ∧ depthOf s d < c.maxDepth := by
+  unfold choose at h
+  split at h
+  · cases h
+  · rename_i p hp
+    have hm := List.mem_of_mem_head? (Option.mem_def.mpr hp)
+    have hc : (union s.S s.P).contains p.1 = true := (List.mem_filter.mp hm).2
+    have hu : p.1 ∈ union s.S s.P := by simpa using hc
+    split at h
+    · rename_i hcond
+      split at h
+      · cases h
+      · rename_i hS
+        cases h
+        simp only [Bool.and_eq_true, decide_eq_true_eq] at hcond
+        have hS' : p.1 ∉ s.S := by simpa using hS
+        refine ⟨hS', ?_, hcond.1⟩
+        rcases (mem_union _ _ _).mp hu with h1 | h1
+        · exact absurd h1 hS'
+        · exact h1
+    · cases h
+
+/-- with the latch off, a candidate below the maximum depth that is still active after the
+decision phases is still a *candidate*: ε-covering cannot have moved it -/
+theorem ad_latch_keeps (isDom isCov pessDom : Rel) (depth : Nat → Nat) (maxDepth : Nat)
+    {S P : List Nat} (hd : ∀ i ∈ S, i ∉ P) {d : Nat} (hS : d ∈ S) (hdep : depth d ≠ maxDepth)
+    (hin : d ∈ (vogpADRound isDom isCov pessDom depth maxDepth false S P).1 ∨
+           d ∈ (vogpADRound isDom isCov pessDom depth maxDepth false S P).2.1) :
+    d ∈ (vogpADRound isDom isCov pessDom depth maxDepth false S P).1 := by
+  rcases hin with h | h
+  · exact h
+  · exfalso
+    unfold vogpADRound epsilonCoveringAD at h
+    split at h
+    · exact hd d hS h
+    · rename_i hcond
+      simp only [Bool.not_false, Bool.true_and, Bool.not_eq_true', Bool.not_eq_false] at hcond
+      simp only [epsilonCovering] at h
+      rcases (mem_addAll _ _ _).mp h with h1 | h1
+      · exact hd d hS h1
+      · have h2 : d ∈ vogpDiscard isDom pessDom S P := (List.mem_filter.mp h1).1
+        have := List.all_eq_true.mp hcond d h2
+        exact hdep (by simpa using this)
+
+/-- Prop form of the refinement clauses of `adSetsOk`: node `d` was refined in this call -/
+structure ADRefine (c : Cfg) (s st : State) (d : Nat) : Prop where
+  depth_lt : depthOf s d < c.maxDepth
+  depths_eq : st.depths = s.depths ++ List.replicate c.branch (depthOf s d + 1)
+  notS : d ∉ st.S
+  notP : d ∉ st.P
+  was : d ∈ s.S ∨ d ∈ s.P
+  S_from : ∀ i ∈ st.S, i ∈ s.S ∨ i ∈ childIds c s.depths.length
+  P_keep : ∀ p ∈ s.P, p ∈ st.P ∨ p = d
+  P_from : ∀ p ∈ st.P, p ∈ s.P ∨ p ∈ s.S ∨ p ∈ childIds c s.depths.length
+  side : (∀ k ∈ childIds c s.depths.length, k ∈ st.S) ∨ (∀ k ∈ childIds c s.depths.length, k ∈ st.P)
+  kidsP : d ∈ s.P → ∀ k ∈ childIds c s.depths.length, k ∈ st.P
+  kidsS : d ∈ s.S → s.latch = false → ∀ k ∈ childIds c s.depths.length, k ∈ st.S
+
+/-- what an active VOGP_AD call guarantees on a well-formed state -/
+structure ADFacts (c : Cfg) (s : State) (a : Act) : Prop where
+  wf : WF c a.st
+  plain : a.refined = none → Trans s.S s.P a.st.S a.st.P ∧ a.st.depths = s.depths
+  refine : ∀ d, a.refined = some d → ADRefine c s a.st d ∧ a.req = []
+  reqIn : ∀ r ∈ a.req, r.2 = none ∧ (r.1 ∈ s.S ∨ r.1 ∈ s.P)
+  reqLen : a.req.length ≤ 1
+  reqS : a.req ≠ [] → a.st.S ≠ []
+  emptyS : a.st.S = [] → a.req = []
+
+theorem wf_account {c : Cfg} {s : State} (r : List Req) (hw : WF c s) : WF c (account c s r) :=
+  ⟨hw.nodupS, hw.nodupP, hw.disj, hw.useful, hw.bound, hw.noU⟩
+
+theorem depthOf_congr {s s1 : State} (h : s1.depths = s.depths) (d : Nat) :
+    depthOf s1 d = depthOf s d := by
+  unfold depthOf; rw [h]
+
+/-- `evaluate_refine()` on the state `s1` reached by the decision phases from `s` -/
+theorem applyChoice_facts (c : Cfg) (s s1 : State) (e : Env) (hc : c.alg = .vogpAD)
+    (hd : ∀ i ∈ s.S, i ∉ s.P) (hw1 : WF c s1) (T : Trans s.S s.P s1.S s1.P)
+    (hdep : s1.depths = s.depths) (hne : s1.S ≠ [])
+    (hlatch : ∀ d ∈ s.S, s.latch = false → depthOf s d ≠ c.maxDepth →
+      (d ∈ s1.S ∨ d ∈ s1.P) → d ∈ s1.S) :
+    ADFacts c s (applyChoice c s1 (choose c s1 e)) := by
+  have hU := hw1.noU hc
+  have hb := hw1.bound hc
+  have hkid : childIds c s1.depths.length = childIds c s.depths.length := by rw [hdep]
+  cases hch : choose c s1 e with
+  | idle =>
+    exact ⟨wf_account _ hw1, fun _ => ⟨T, hdep⟩, (fun d h => by cases h),
+      (fun r hr => by cases hr), (by simp [applyChoice]), fun h => absurd rfl h, fun _ => rfl⟩
+  | sample d =>
+    have hin := choose_sample hch
+    refine ⟨wf_account _ hw1, fun _ => ⟨T, hdep⟩, (fun d h => by cases h), ?_, (by simp [applyChoice]),
+      fun _ => hne, fun h => absurd h hne⟩
+    intro r hr
+    simp only [applyChoice, List.mem_singleton] at hr
+    subst hr
+    refine ⟨rfl, ?_⟩
+    rcases hin with h | h
+    · exact Or.inl (T.sub.subset h)
+    · exact (T.from_ d h).symm
+  | refineS d =>
+    obtain ⟨hdS, hlt⟩ := choose_refineS hch
+    have hdn : d < s1.depths.length := hb d (Or.inl hdS)
+    have hSt : (applyChoice c s1 (.refineS d)).st.S = s1.S.erase d ++ childIds c s1.depths.length := rfl
+    have hPt : (applyChoice c s1 (.refineS d)).st.P = s1.P := rfl
+    have hDt : (applyChoice c s1 (.refineS d)).st.depths =
+        s1.depths ++ List.replicate c.branch (depthOf s1 d + 1) := rfl
+    have hwas : d ∈ s.S := T.sub.subset hdS
+    refine ⟨⟨?_, ?_, ?_, ?_, ?_, ?_⟩, (fun h => by cases h), ?_, (fun r hr => by cases hr),
+      (by simp [applyChoice]), fun h => absurd rfl h, fun _ => rfl⟩
+    · rw [hSt, List.nodup_append]
+      refine ⟨hw1.nodupS.erase d, nodup_childIds c _, ?_⟩
+      intro a ha b hb' hab
+      have := hb a (Or.inl (List.mem_of_mem_erase ha))
+      have := (mem_childIds c _ b).mp hb'
+      omega
+    · rw [hPt]; exact hw1.nodupP
+    · intro i hi hp
+      rw [hSt, List.mem_append] at hi
+      rw [hPt] at hp
+      rcases hi with h | h
+      · exact hw1.disj i (List.mem_of_mem_erase h) hp
+      · have := hb i (Or.inr hp)
+        have := (mem_childIds c _ i).mp h
+        omega
+    · intro i hi
+      have : (applyChoice c s1 (.refineS d)).st.U = s1.U := rfl
+      rw [this, hU] at hi
+      cases hi
+    · intro _ i hi
+      rw [hSt, hPt, hDt, List.mem_append] at *
+      simp only [List.length_append, List.length_replicate]
+      rcases hi with (h | h) | h
+      · have := hb i (Or.inl (List.mem_of_mem_erase h)); omega
+      · have := (mem_childIds c _ i).mp h; omega
+      · have := hb i (Or.inr h); omega
+    · intro _
+      exact hU
+    · intro d' hd'
+      have : d' = d := by
+        simp only [applyChoice] at hd'
+        exact (Option.some.inj hd').symm
+      subst this
+      refine ⟨⟨?_, ?_, ?_, ?_, Or.inl hwas, ?_, ?_, ?_, Or.inl ?_, ?_, ?_⟩, rfl⟩
+      · rw [← depthOf_congr hdep]; exact hlt
+      · rw [hDt, hdep, depthOf_congr hdep]
+      · rw [hSt, List.mem_append]
+        rintro (h | h)
+        · exact ((hw1.nodupS.mem_erase_iff).mp h).1 rfl
+        · have := (mem_childIds c _ d').mp h; omega
+      · rw [hPt]; exact hw1.disj d' hdS
+      · intro i hi
+        rw [hSt, List.mem_append] at hi
+        rcases hi with h | h
+        · exact Or.inl (T.sub.subset (List.mem_of_mem_erase h))
+        · exact Or.inr (hkid ▸ h)
+      · intro p hp
+        rw [hPt]; exact Or.inl (T.keep p hp)
+      · intro p hp
+        rw [hPt] at hp
+        rcases T.from_ p hp with h | h
+        · exact Or.inl h
+        · exact Or.inr (Or.inl h)
+      · intro k hk
+        rw [hSt, List.mem_append]; exact Or.inr (hkid ▸ hk)
+      · intro hP'
+        exact absurd hP' (hd d' hwas)
+      · intro _ _ k hk
+        rw [hSt, List.mem_append]; exact Or.inr (hkid ▸ hk)
+  | refineP d =>
+    obtain ⟨hnS, hdP, hlt⟩ := choose_refineP hch
+    have hdn : d < s1.depths.length := hb d (Or.inr hdP)
+    have hSt : (applyChoice c s1 (.refineP d)).st.S = s1.S := rfl
+    have hPt : (applyChoice c s1 (.refineP d)).st.P = s1.P.erase d ++ childIds c s1.depths.length := rfl
+    have hDt : (applyChoice c s1 (.refineP d)).st.depths =
+        s1.depths ++ List.replicate c.branch (depthOf s1 d + 1) := rfl
+    have hwas : d ∈ s.P ∨ d ∈ s.S := T.from_ d hdP
+    refine ⟨⟨?_, ?_, ?_, ?_, ?_, ?_⟩, (fun h => by cases h), ?_, (fun r hr => by cases hr),
+      (by simp [applyChoice]), fun h => absurd rfl h, fun _ => rfl⟩
+    · rw [hSt]; exact hw1.nodupS
+    · rw [hPt, List.nodup_append]
+      refine ⟨hw1.nodupP.erase d, nodup_childIds c _, ?_⟩
+      intro a ha b hb' hab
+      have := hb a (Or.inr (List.mem_of_mem_erase ha))
+      have := (mem_childIds c _ b).mp hb'
+      omega
+    · intro i hi hp
+      rw [hSt] at hi
+      rw [hPt, List.mem_append] at hp
+      rcases hp with h | h
+      · exact hw1.disj i hi (List.mem_of_mem_erase h)
+      · have := hb i (Or.inl hi)
+        have := (mem_childIds c _ i).mp h
+        omega
+    · intro i hi
+      have : (applyChoice c s1 (.refineP d)).st.U = s1.U := rfl
+      rw [this, hU] at hi
+      cases hi
+    · intro _ i hi
+      rw [hSt, hPt, hDt, List.mem_append] at *
+      simp only [List.length_append, List.length_replicate]
+      rcases hi with h | h | h
+      · have := hb i (Or.inl h); omega
+      · have := hb i (Or.inr (List.mem_of_mem_erase h)); omega
+      · have := (mem_childIds c _ i).mp h; omega
+    · intro _
+      exact hU
+    · intro d' hd'
+      have : d' = d := by
+        simp only [applyChoice] at hd'
+        exact (Option.some.inj hd').symm
+      subst this
+      refine ⟨⟨?_, ?_, ?_, ?_, hwas.symm, ?_, ?_, ?_, Or.inr ?_, ?_, ?_⟩, rfl⟩
+      · rw [← depthOf_congr hdep]; exact hlt
+      · rw [hDt, hdep, depthOf_congr hdep]
+      · rw [hSt]; exact hnS
+      · rw [hPt, List.mem_append]
+        rintro (h | h)
+        · exact ((hw1.nodupP.mem_erase_iff).mp h).1 rfl
+        · have := (mem_childIds c _ d').mp h; omega
+      · intro i hi
+        rw [hSt] at hi
+        exact Or.inl (T.sub.subset hi)
+      · intro p hp
+        by_cases hpd : p = d'
+        · exact Or.inr hpd
+        · refine Or.inl ?_
+          rw [hPt, List.mem_append]
+          exact Or.inl ((List.mem_erase_of_ne hpd).mpr (T.keep p hp))
+      · intro p hp
+        rw [hPt, List.mem_append] at hp
+        rcases hp with h | h
+        · rcases T.from_ p (List.mem_of_mem_erase h) with h1 | h1
+          · exact Or.inl h1
+          · exact Or.inr (Or.inl h1)
+        · exact Or.inr (Or.inr (hkid ▸ h))
+      · intro k hk
+        rw [hPt, List.mem_append]; exact Or.inr (hkid ▸ hk)
+      · intro _ k hk
+        rw [hPt, List.mem_append]; exact Or.inr (hkid ▸ hk)
+      · intro hS' hl
+        have hne' : depthOf s d' ≠ c.maxDepth := by
+          have := depthOf_congr hdep d'
+          omega
+        exact absurd (hlatch d' hS' hl hne' (Or.inr hdP)) hnS
+
+/-- An active VOGP_AD call on a well-formed state. -/
+theorem adActive_facts (c : Cfg) (s : State) (e : Env) (hw : WF c s) (hc : c.alg = .vogpAD) :
+    ADFacts c s (adActive c s e) := by
+  have T := vogpADRound_trans e.isDom e.isCov e.pessDom (depthOf s) c.maxDepth s.latch
+    hw.nodupS hw.nodupP hw.disj
+  have hw1 : WF c { s with
+      S := (vogpADRound e.isDom e.isCov e.pessDom (depthOf s) c.maxDepth s.latch s.S s.P).1
+      P := (vogpADRound e.isDom e.isCov e.pessDom (depthOf s) c.maxDepth s.latch s.S s.P).2.1
+      latch := (vogpADRound e.isDom e.isCov e.pessDom (depthOf s) c.maxDepth s.latch s.S s.P).2.2 } := by
+    refine ⟨T.nodupS, T.nodupP, T.disj, ?_, ?_, fun h => hw.noU h⟩
+    · intro i hi
+      have : i ∈ s.U := hi
+      rw [hw.noU hc] at this
+      cases this
+    · intro _ i hi
+      rcases hi with h | h
+      · exact hw.bound hc i (Or.inl (T.sub.subset h))
+      · exact hw.bound hc i ((T.from_ i h).symm)
+  simp only [adActive]
+  split
+  · exact ⟨wf_account _ hw1, fun _ => ⟨T, rfl⟩, (fun d h => by cases h), (fun r hr => by cases hr),
+      (by simp), fun h => absurd rfl h, fun _ => rfl⟩
+  · rename_i hne
+    refine applyChoice_facts c s _ e hc hw.disj hw1 T rfl ?_ ?_
+    · intro h
+      apply hne
+      show (vogpADRound e.isDom e.isCov e.pessDom (depthOf s) c.maxDepth s.latch s.S s.P).1.isEmpty = true
+      have h' : (vogpADRound e.isDom e.isCov e.pessDom (depthOf s) c.maxDepth s.latch s.S s.P).1 = [] := h
+      rw [h']; rfl
+    · intro d hd hl hdep hin
+      have hin' : d ∈ (vogpADRound e.isDom e.isCov e.pessDom (depthOf s) c.maxDepth s.latch s.S s.P).1 ∨
+          d ∈ (vogpADRound e.isDom e.isCov e.pessDom (depthOf s) c.maxDepth s.latch s.S s.P).2.1 := hin
+      show d ∈ (vogpADRound e.isDom e.isCov e.pessDom (depthOf s) c.maxDepth s.latch s.S s.P).1
+      rw [hl] at hin' ⊢
+      exact ad_latch_keeps e.isDom e.isCov e.pessDom (depthOf s) c.maxDepth hw.disj hd hdep hin'
 
 end VOPy.Run
